@@ -142,6 +142,10 @@ func (l *staticLeaf) match(segment string, _ Params, header http.Header) bool {
 }
 
 func (l *staticLeaf) Static() bool {
+	// The route of an optional leaf ("/a/?b") is not a request path it matches.
+	if l.segment.Optional {
+		return false
+	}
 	ancestor := l.parent
 	for ancestor != nil {
 		if ancestor.getMatchStyle() > matchStyleStatic {
